@@ -586,17 +586,20 @@ def rule_tab_bar(ctx):
 
     def ff(it, args, kwargs, node):
         n = args[1]
-        if n is None:
-            return []
+        if n is None or n.name == "empty":
+            return []  # nothing to finger (find_fingering's answer for no notes)
         return [list(fingerings[n.name])]
     summ[key] = ff
     nci, barci = repo.mod(NC).cls("NoteContainer"), repo.mod(BAR).cls("Bar")
     # (4/4, and the same entries in free time: the unbounded (0, 0) meter has no beats to mark)
-    for width, meter in ((40, (4, 4)), (61, (4, 4)), (40, (0, 0))):
-        def mk(meter=meter):
+    for width, meter, with_empty in ((40, (4, 4), False), (61, (4, 4), False), (40, (0, 0), False), (40, (0, 0), True), (61, (4, 4), True)):
+        def mk(meter=meter, with_empty=with_empty):
             entries = []
-            for label, val in (("e0", 4), ("e1", 8), (None, 8), ("e3", 2)):
-                cont = None if label is None else AObj(nci, {"notes": []}, name=label)
+            # (the third entry is a rest; the fourth, where present, a container that holds no notes -- a rest as well,
+            # as it is for the LilyPond, MusicXML and MIDI writers)
+            for label, val in (("e0", 4), ("e1", 8), (None, 8), ("e3", 2)) + ((("empty", 8),) if with_empty else ()):
+                held = [] if label in (None, "empty") else [note_stub(repo, "%s_%d" % (label, i)) for i in range(len(fingerings[label]))]
+                cont = None if label is None else AObj(nci, {"notes": held}, name=label)
                 entries.append([0.0, val, cont])
             return [AObj(barci, {"bar": entries, "meter": meter, "length": 1.0 if meter[1] else 0.0}, name="bar"), width, tuning_obj(repo, strings), False]
         try:
@@ -635,4 +638,4 @@ def rule_tab_bar(ctx):
                     if got != want:
                         ok, why = False, "reading the fret numbers column by column gives %s, the entries are %s" % (got, want)
 
-        ctx.check(ok, R, "from_Bar[width=%d%s]" % (width, "" if meter[1] else ", free time"), f.where(), "tablature.from_Bar(<4 entries in %d/%d>, %d)" % (meter[0], meter[1], width), why)
+        ctx.check(ok, R, "from_Bar[width=%d%s%s]" % (width, "" if meter[1] else ", free time", ", empty container" if with_empty else ""), f.where(), "tablature.from_Bar(<4 entries in %d/%d>, %d)" % (meter[0], meter[1], width), why)
